@@ -26,6 +26,19 @@ def main():
     if "--tests" in a:
         a.remove("--tests"); tests = True
     rows = []
+    # the check rewrites evidence/C20.json on every run: what it writes while /repo is patched must
+    # never end up committed as evidence -> keep the file as it was before this tool started
+    ev_path = os.path.join(VERIF, "evidence", "C20.json")
+    ev_saved = open(ev_path).read() if os.path.exists(ev_path) else None
+    try:
+        return run_all(a, tier, tests, rows)
+    finally:
+        if ev_saved is not None:
+            with open(ev_path, "w") as f:
+                f.write(ev_saved)
+
+
+def run_all(a, tier, tests, rows):
     for diff in a:
         name = os.path.basename(os.path.dirname(diff)) if os.path.basename(diff) == "patch.diff" else os.path.basename(diff)[:-5]
         st = sh(["git", "-C", REPO, "status", "--porcelain", "--untracked-files=no"]).stdout.strip()
